@@ -213,4 +213,10 @@ def main(run, pid, level="model_checking"):
     except MachineryFailure as e:
         print("MACHINERY-FAILURE property=%s %s" % (pid, e))
         rc = 2
+    except Exception:
+        # an exception nobody planned for (possibly raised by the code under test where the harness calls it without a
+        # net): no verdict - exit 2, never exit 1 without a VIOLATION line
+        import traceback
+        print("MACHINERY-FAILURE property=%s unexpected exception in the check:\n%s" % (pid, traceback.format_exc()[-3000:]))
+        rc = 2
     sys.exit(rc)
